@@ -10,7 +10,8 @@ COQ_AGREE = "agree"
 COQ_PROP_OK = "prop_ok"
 RULE = ("seeded histories on real directories: max_keep 0-4, 0-5 pre-existing state directories with distinct shuffled mtimes, 0-3 unrelated files, then up to 25 "
         "operations: save+append (directory created, or already gone), cleanup (several appends per cleanup, cleanups with nothing to do), removal of any entry by "
-        "someone else, creation of unrelated files; plus max_keep < 0. Non-trivial = at least two cleanups that removed something; distinct = canonical JSON.")
+        "someone else, creation of unrelated files; plus max_keep < 0; plus whole-system relaunches (a first launch() leaves 2-5 states with shuffled mtimes, a second one resumes from any of them "
+        "with a keeper on the same directory and saves more: what was saved is taken from the StateStore, deletions and listings from the keeper). Non-trivial = at least two cleanups that removed something; distinct = canonical JSON.")
 TRUSTED = [
     "Coq 8.16.1 kernel incl. vm_compute",
     "hand-written model coq/Model/Keeper.v of StatesKeeper.cleanup / LatestStatesKeeper",
@@ -45,9 +46,28 @@ def gen_one(rng):
     return {"mk": mk, "matching": matching, "mtimes": [[i, m] for i, m in zip(matching, mts)], "foreign": foreign, "ops": ops}
 
 
+def gen_sys(rng):
+    """whole system: a first launch leaves 2-5 states behind, a second one resumes from one of them (any of them) with a
+    LatestStatesKeeper on the same directory and saves some more"""
+    from harness.props import sysbase as B
+    r1 = B.base_spec(rng, rng.randrange(10**9))
+    r1.update(step_dur=0.0005, train_dur=0.001, hook_dur=0, pause_timeout=1.0, chooser="random")
+    r1["save_at_ticks"] = sorted(rng.sample(range(2, 30), rng.randint(1, 4)))
+    r1["cmds"] = [["sleep", 0.06], ["shutdown", "retry"]]
+    r2 = dict(r1, seed=rng.randrange(10**9))
+    r2["save_at_ticks"] = sorted(rng.sample(range(2, 30), rng.randint(0, 3)))
+    r2["cmds"] = [["sleep", 0.06], ["shutdown", "retry"]]
+    return {"kind": "sys", "mk": rng.choice([0, 1, 2, 2, 3]), "mt_perm": rng.sample(range(8), 8), "load": rng.randrange(8), "run1": r1, "run2": r2}
+
+
+def _d(case, obs):
+    """the keeper-level case: generated, or (whole-system runs) derived from what the run actually saved"""
+    return obs["derived"] if case.get("kind") == "sys" else case
+
+
 def gen(rng, tier):
-    n = {"quick": 1200, "thorough": 25000, "search": 5000}[tier]
-    cases = [gen_one(rng) for _ in range(n)]
+    n, ns = {"quick": (1200, 24), "thorough": (25000, 400), "search": (5000, 100)}[tier]
+    cases = [gen_one(rng) for _ in range(n)] + [gen_sys(rng) for _ in range(ns)]
     for _ in range(5):
         c = gen_one(rng); c["mk"] = -rng.randint(1, 3); c["ops"] = []; cases.append(c)
     return cases
@@ -84,11 +104,11 @@ def coq_input(case):
 
 def coq_case(case, obs):
     o = cl(f"({cl(cn(x) for x in r)}, {cl(cn(x) for x in f)})" for r, f in obs["obs"])
-    return f"({coq_input(case)}, {o})"
+    return f"({coq_input(_d(case, obs))}, {o})"
 
 
 def coq_expected(case, obs):
-    return f"model_obs {coq_input(case)}"
+    return f"model_obs {coq_input(_d(case, obs))}"
 
 
 def nontrivial(case, obs):
@@ -103,6 +123,12 @@ def signature(case, obs):
 
 def shrink(case):
     out = []
+    if case.get("kind") == "sys":
+        for key in ("run1", "run2"):
+            t = case[key].get("save_at_ticks") or []
+            for i in range(len(t)):
+                c = dict(case); c[key] = dict(case[key], save_at_ticks=t[:i] + t[i + 1:]); out.append(c)
+        return out
     ops = case["ops"]
     for i in range(len(ops) - 1, -1, -1):
         c = dict(case); c["ops"] = ops[:i] + ops[i + 1:]; out.append(c)
@@ -114,12 +140,17 @@ def shrink(case):
 
 
 def describe(case, obs):
+    if case.get("kind") == "sys":
+        return {"input": case, "keeper_level_case": obs.get("derived"), "resumed_from": obs.get("resumed_from"), "observed": (obs.get("obs") or [])[:12], "error": obs.get("error")}
     return {"input": case, "observed": (obs.get("obs") or [])[:12]}
 
 
 def distribution(cases, obs):
     d = {"max_keep": {}, "preexisting": {}, "ops": {}, "cleanups_removing": 0, "cleanups_idle": 0}
+    d["whole_system_relaunches"] = sum(1 for c in cases if c.get("kind") == "sys")
     for c, o in zip(cases, obs):
+        if c.get("kind") == "sys":
+            c = o.get("derived") or {"mk": c["mk"], "matching": [], "ops": []}
         d["max_keep"][str(c["mk"])] = d["max_keep"].get(str(c["mk"]), 0) + 1
         d["preexisting"][str(len(c["matching"]))] = d["preexisting"].get(str(len(c["matching"])), 0) + 1
         for op, y in zip(c["ops"], o.get("obs", [])):
